@@ -1,5 +1,6 @@
 import SiaProofs.Lemmas.LedgerC08V1
 import SiaProofs.Lemmas.LedgerC08V2
+import SiaProofs.Lemmas.LedgerC02Payout
 /-!
 # C08 — height- and time-dependent rules flip exactly at their boundaries (ledger model)
 
@@ -580,5 +581,84 @@ theorem c08_v2_allowed_from_threshold (ms : Mid) (t : Txn2) (mw : Nat)
 example : validateV2Transaction (M 10) (tSpend2 e0) 100 = .ok () := by decide
 example : validateV2Transaction (M 9) (tSpend2 e0) 100 =
     .error (.reject "v2 transactions are not allowed until v2 hardfork begins") := by decide
+
+-- ================================================================= whole blocks
+
+/-- Every transaction of an accepted block passed its validator against a mid-state over the
+block's ledger, so all transaction-level theorems above apply with `ms.base.child = L.child`. -/
+theorem c08_block_txns_validated (L : Ledger) (b : Block) (pid : Id) (ms : Mid) (h : validateBlock L b pid = .ok ms) :
+    (∀ t ∈ b.txns1, ∃ s : Mid, s.base = L ∧ validateTransaction s t pid b.maxWeight = .ok ()) ∧
+    (∀ t ∈ b.txns2, ∃ s : Mid, s.base = L ∧ validateV2Transaction s t b.maxWeight = .ok ()) := by
+  obtain ⟨h1, h2⟩ := validateBlock_ok_txns h
+  constructor
+  · intro t ht
+    obtain ⟨pre, post, hsplit⟩ := List.append_of_mem ht
+    obtain ⟨s, _, hb, hv⟩ := h1 pre t post hsplit
+    exact ⟨s, hb, hv⟩
+  · intro t ht
+    obtain ⟨pre, post, hsplit⟩ := List.append_of_mem ht
+    obtain ⟨_, s, _, _, hb, hv⟩ := h2 pre t post hsplit
+    exact ⟨s, hb, hv⟩
+
+/-- The height rules read off an accepted block, in terms of the ledger's child height. -/
+theorem c08_block_height_rules (L : Ledger) (b : Block) (pid : Id) (ms : Mid) (h : validateBlock L b pid = .ok ms) :
+    (∀ t ∈ b.txns1, L.child < L.P.v2Require ∧
+      (∀ sci ∈ t.scIns, sci.timelock ≤ L.child) ∧ (∀ sfi ∈ t.sfIns, sfi.timelock ≤ L.child) ∧
+      (∀ r ∈ t.revs, r.timelock ≤ L.child ∧ L.child ≤ r.fc.windowStart)) ∧
+    (∀ t ∈ b.txns2, L.P.v2Allow ≤ L.child ∧
+      (∀ sci ∈ t.scIns, sci.parent.maturity ≤ L.child) ∧
+      (∀ r ∈ t.revs, L.child ≤ r.parent.fc.proofHeight) ∧
+      (∀ r ∈ t.ress, (∀ ih iid a c, r.res = .proof ih iid a c →
+          r.parent.fc.proofHeight ≤ L.child ∧ ih = r.parent.fc.proofHeight ∧ (ih, iid) ∈ L.chain) ∧
+        (r.res = .expiration → r.parent.fc.expHeight < L.child))) := by
+  obtain ⟨h1, h2⟩ := c08_block_txns_validated L b pid ms h
+  constructor
+  · intro t ht
+    obtain ⟨s, hb, hv⟩ := h1 t ht
+    obtain ⟨a1, _, _, _, hsc, hsf, hfc, _, _⟩ := (validateTransaction_ok_iff s t pid b.maxWeight).1 hv
+    rw [hb] at a1
+    refine ⟨a1, ?_, ?_, ?_⟩
+    · intro sci hm
+      have := ((c08_uc_timelock_v1 s t).1.1 hsc).1 sci hm
+      rwa [hb] at this
+    · intro sfi hm
+      have := ((c08_uc_timelock_v1 s t).2.1.1 hsf).1 sfi hm
+      rwa [hb] at this
+    · intro r hm
+      obtain ⟨p, _, hr⟩ := ((validateFileContracts_ok_iff s t pid).1 hfc).2.1 r hm
+      have a := hr.timelock
+      have c := hr.windowStart
+      rw [hb] at a c
+      exact ⟨a, c⟩
+  · intro t ht
+    obtain ⟨s, hb, hv⟩ := h2 t ht
+    obtain ⟨a1, _, _, _, hsc, _, hfc, _, _⟩ := (validateV2Transaction_ok_iff s t b.maxWeight).1 hv
+    rw [hb] at a1
+    obtain ⟨_, f1, _, f2, _⟩ := (validateV2FileContracts_ok_iff s t).1 hfc
+    refine ⟨a1, ?_, ?_, ?_⟩
+    · intro sci hm
+      have := ((c08_maturity_v2 s t).1 hsc).1 sci hm
+      rwa [hb] at this
+    · intro r hm
+      have := (f1 r hm).parentProofHeight
+      rwa [hb] at this
+    · intro r hm
+      have hk := (res2Check_ok_iff s r).2 (f2 r hm).kind
+      constructor
+      · intro ih iid a c hr
+        have := ((c08_v2_proof_height s r ih iid a c hr).1 hk).1
+        rwa [hb] at this
+      · intro hr
+        have := (c08_v2_expiration s r hr).1 hk
+        rwa [hb] at this
+
+/-- from the require height on, a block with any v1 transaction or expiring v1 contract is not accepted -/
+theorem c08_v1_forbidden_from_block (L : Ledger) (b : Block) (pid : Id) (h : L.child ≥ L.P.v2Require)
+    (hne : b.txns1.length ≠ 0 ∨ b.expiring.length ≠ 0) : NotOk (validateBlock L b pid) := by
+  rw [validateBlock_eq]
+  apply bind_notOk_right
+  intro _ _
+  apply bind_notOk_left
+  exact (c08_v1_forbidden_from_supplement L b h hne).notOk
 
 end C08
